@@ -34,7 +34,9 @@
 (*                      equivalent to some sequential order plus evictions); Evict drops any     *)
 (*                      entry at any time - a sound abstraction of the ARC replacement policy.   *)
 (*                                                                                              *)
-(* The three switches describe the code variants:                                               *)
+(* The three switches describe the code variants (the pinned tree violates C12 in four ways -   *)
+(* findings.d/C12.json - and with all three TRUE the layer is the cache design of                *)
+(* fixes/c12-*.diff, for which TLC proves Transparent):                                           *)
 (*   FixKey  FALSE: key = host \o method \o path (pinned tree)   TRUE: key = the triple          *)
 (*   FixHdr  FALSE: a header-less match is cached even if a header-conditioned entry was         *)
 (*                  passed over on the way (pinned tree)          TRUE: only if none was         *)
